@@ -1351,11 +1351,79 @@ class Batch:
         self.collecting = False
 
 
+# ------------------------------------------------------------------ part D: hostile / unusual TLS input
+def tls_menu_chunk(args):
+    """C05's menu of TLS handshake messages and transport-parameter encodings from a key-holding peer (legal but
+    unusual ones included: preferred_address, version_information, unknown parameters), each on a fresh endpoint
+    with the qlog off and on: same outcome, and the log of the second run serialises."""
+    from checks import c05_tls
+
+    lo, hi = args
+    cases = [c for c in c05_tls.all_cases("quick", 0) if c[2][0] in ("menu_server_adv", "menu_client_adv")
+             and not c[2][1].get("second")][lo:hi]
+    out = []
+    for label, role, (kind, meta, fn) in cases:
+        obs = {}
+        viol = None
+        for qlog in (False, True):
+            case = (label, role, (kind, dict(meta, cfg=dict(meta["cfg"], qlog=qlog)), fn))
+            adv = None
+            try:
+                adv, _ = c05_tls.execute(case)
+                v = adv.victim
+                v.drive_to_end()
+                term = v.terminated
+                o = ("ok", v.handshake_completed, None if term is None else (int(term.error_code), term.reason_phrase),
+                     tuple(type(e).__name__ for e in v.events), tuple(len(d) for d in v.sent))
+            except core.HarnessError:
+                raise
+            except Exception as e:  # noqa
+                if c05_tls.classify(e)[1] is None:
+                    raise
+                o = ("exception", type(e).__name__, c05_tls.classify(e)[1])
+            obs[qlog] = o
+            if qlog and adv is not None:
+                lg = adv.victim.conn._configuration.quic_logger
+                try:
+                    json.dumps(lg.to_dict())
+                except Exception as e:  # noqa
+                    viol = ({"monitor": "qlog.not_serialisable", "exc": type(e).__name__, "part": "tls_menu"},
+                            "json.dumps(QuicLogger.to_dict()) failed after a real %s received TLS input %s: %s: %s"
+                            % (role, label, type(e).__name__, e))
+        if viol is None and obs[False] != obs[True]:
+            viol = ({"monitor": "observation_differs", "part": "tls_menu", "setting": "qlog"},
+                    "a real %s that received TLS input %s behaves differently with the qlog on: off %r, on %r"
+                    % (role, label, obs[False], obs[True]))
+        out.append((label, role, obs[False][0:2], viol))
+    return out
+
+
+def run_tls_menu(ctx):
+    from checks import c05_tls
+
+    n = len([c for c in c05_tls.all_cases("quick", 0) if c[2][0] in ("menu_server_adv", "menu_client_adv")
+             and not c[2][1].get("second")])
+    tasks = [(lo, min(n, lo + 30)) for lo in range(0, n, 30)]
+    outs = set()
+    total = 0
+    for chunk in core.pmap(tls_menu_chunk, tasks):
+        for label, role, o, viol in chunk:
+            total += 1
+            outs.add((role, o))
+            if viol:
+                ctx.violation(dict(viol[0], role=role), viol[1], {"part": "tls_menu", "case": label})
+    if len(outs) < 4:
+        raise core.HarnessError("tls_menu part vacuous: %r" % sorted(outs, key=repr))
+    ctx.part("tls_menu_qlog_off_on", evaluations=2 * total, transitions=2 * total, states=total, distinct_nontrivial=len(outs))
+
+
 def run(ctx):
     batch = Batch()
     _run(ctx, batch)
     batch.execute()
     _run(ctx, batch)
+    if not ctx.only_parts or "tls_menu" in ctx.only_parts:
+        run_tls_menu(ctx)
 
 
 def _run(ctx, batch):
@@ -1621,6 +1689,22 @@ def replay(ctx, obj):
     rp = obj["replay"]
     part = rp["part"]
     bad = 0
+    if part == "tls_menu":
+        from checks import c05_tls
+
+        cases = [c for c in c05_tls.all_cases("quick", 0) if c[2][0] in ("menu_server_adv", "menu_client_adv")
+                 and not c[2][1].get("second")]
+        idx = [i for i, c in enumerate(cases) if c[0] == rp["case"]]
+        if not idx:
+            print("case %r is not in the menu any more" % rp["case"])
+            return 2
+        for label, role, o, viol in tls_menu_chunk((idx[0], idx[0] + 1)):
+            print("  %s (victim %s): %r" % (label, role, o))
+            if viol:
+                print("VIOLATION property=C20 replay=(replayed): %s" % viol[1])
+                return 1
+        print("no violation on replay")
+        return 0
     if part == "netsim":
         sc, prefix = rp["scenario"], rp["choices"]
         print("scenario %s, choice list %r" % (rp["scenario_id"], prefix))
